@@ -56,6 +56,7 @@ Lemma settle_ok : forall r q a s,
 Proof.
   intros r q. induction q as [|it q IH]; intros a s Hb Hd.
   - cbn [settle]. destruct (s_loop s) eqn:Hl.
+    + exists a. cbn. repeat split; auto; try solve [unfold quiet in *; tauto]; try (intros E; rewrite E in Hl; discriminate).
     + destruct (s_ct s) eqn:Hct.
       * destruct (loop_finish_ok r a s Hb Hd Hl) as (a' & (H1 & H2 & H3 & H4 & H5 & H6 & H7 & H8) & H9).
         exists a'. destruct (loop_finish r s) as [s1 o]. cbn in *.
@@ -71,6 +72,7 @@ Proof.
     + exists a. cbn. repeat split; auto; try solve [unfold quiet in *; tauto]; try (intros E; rewrite E in Hl; discriminate).
     + exists a. cbn. repeat split; auto; try solve [unfold quiet in *; tauto]; try (intros E; rewrite E in Hl; discriminate).
   - cbn [settle]. destruct (s_loop s) eqn:Hl.
+    + exists a. cbn. repeat split; auto; try solve [unfold quiet in *; tauto]; try (intros E; rewrite E in Hl; discriminate).
     + destruct (s_ct s) eqn:Hct.
       * destruct (loop_finish_ok r a s Hb Hd Hl) as (a' & (H1 & H2 & H3 & H4 & H5 & H6 & H7 & H8) & H9).
         exists a'. destruct (loop_finish r s) as [s1 o]. cbn in *.
